@@ -142,6 +142,9 @@ type fileSpec struct {
 	// services of its own. The generator is run once per file (the other file is only imported), the way
 	// protoc is commonly driven; both outputs land in one Go package, which must compile if both runs accept.
 	Sibling []svcSpec
+	// SiblingSameRun: both files of the Go package are generated in ONE plugin run (protoc a.proto b.proto),
+	// sib.proto first.
+	SiblingSameRun bool
 	// Twin, if set, is a second proto file of another proto package and another Go package, generated in
 	// the SAME plugin run as svc.proto (protoc one.proto two.proto). Its services may use TwoReq and
 	// .google.protobuf.StringValue; state the generator keeps from the first file must not leak into it.
@@ -175,6 +178,12 @@ func (f fileSpec) String() string {
 		ext = fmt.Sprintf(" ext-message-package=%q", f.ExtPkg)
 		if f.ExtPkg2 != "" {
 			ext += fmt.Sprintf(" second-ext-message-package=x/%q", f.ExtPkg2)
+		}
+	}
+	if f.Sibling != nil {
+		ext += fmt.Sprintf(" plus-sibling-file(same-run=%v)", f.SiblingSameRun)
+		for _, sv := range f.Sibling {
+			ext += " " + sv.Name
 		}
 	}
 	return fmt.Sprintf("package %s protolib=%q json=%v%s %s", f.Pkg, f.Protolib, f.JSON, ext, strings.Join(ss, " "))
@@ -335,6 +344,24 @@ func siblingSpecs() map[string]fileSpec {
 	}
 }
 
+// sameRunSpecs: two files of one Go package generated in one run; the file that comes first is fine,
+// what clashes (if anything) sits in the later file or between the two.
+func sameRunSpecs() map[string]fileSpec {
+	put := []svcSpec{{Name: "Admin", Methods: []methodSpec{{Name: "Put", CS: true, In: "SibReq", Out: "SibReq"}}}}
+	rr := func(n string) methodSpec { return methodSpec{Name: n, In: "Req", Out: "Req"} }
+	return map[string]fileSpec{
+		"no-clash": {Pkg: "a", Msgs: []string{"Req"}, SiblingSameRun: true, Sibling: put, Services: []svcSpec{{Name: "Shop", Methods: []methodSpec{rr("Get")}}}},
+		"later-file-methods-clash": {Pkg: "a", Msgs: []string{"Req"}, SiblingSameRun: true, Sibling: put,
+			Services: []svcSpec{{Name: "Orders", Methods: []methodSpec{rr("get_order"), rr("GetOrder")}}}},
+		"later-file-service-vs-method": {Pkg: "a", Msgs: []string{"Req"}, SiblingSameRun: true, Sibling: put,
+			Services: []svcSpec{{Name: "Cart_Item", Methods: []methodSpec{rr("Get")}}, {Name: "Cart", Methods: []methodSpec{{Name: "Item", CS: true, SS: true, In: "Req", Out: "Req"}}}}},
+		"later-file-stream-names-clash": {Pkg: "a", JSON: true, Msgs: []string{"Req"}, SiblingSameRun: true, Sibling: put,
+			Services: []svcSpec{{Name: "Orders", Methods: []methodSpec{{Name: "Get_Order", SS: true, In: "Req", Out: "Req"}}}, {Name: "Orders_Get", Methods: []methodSpec{{Name: "Order", SS: true, In: "Req", Out: "Req"}}}}},
+		"between-the-files": {Pkg: "a", Msgs: []string{"Req"}, SiblingSameRun: true, Sibling: []svcSpec{{Name: "Shop_Admin", Methods: []methodSpec{{Name: "Put", In: "SibReq", Out: "SibReq"}}}},
+			Services: []svcSpec{{Name: "Shop", Methods: []methodSpec{{Name: "Admin", CS: true, SS: true, In: "Req", Out: "Req"}}}}},
+	}
+}
+
 func buildRequest(f fileSpec, idx int) *pluginpb.CodeGeneratorRequest {
 	goPkg := fmt.Sprintf("c17scratch/p%d", idx)
 	fd := &descriptorpb.FileDescriptorProto{
@@ -451,6 +478,9 @@ func buildRequest(f fileSpec, idx int) *pluginpb.CodeGeneratorRequest {
 	}
 	param = strings.Join(ps, ",")
 	gen := []string{"svc.proto"}
+	if f.Sibling != nil && f.SiblingSameRun {
+		gen = []string{"sib.proto", "svc.proto"}
+	}
 	if f.Twin != nil {
 		gen = []string{"svc.proto", "two.proto"}
 		if f.TwinFirst {
@@ -695,7 +725,7 @@ func checkSpec(id string, f fileSpec, idx int, seed uint64) runner.Result {
 		res.Sample = map[string]interface{}{"descriptor": desc, "generator_error": resp.GetError()}
 		return res
 	}
-	if f.Sibling != nil {
+	if f.Sibling != nil && !f.SiblingSameRun {
 		// the second run: the sibling file is the one to generate, svc.proto is not part of that run's
 		// input at all (it imports the sibling, not the other way round)
 		sreq := proto.Clone(req).(*pluginpb.CodeGeneratorRequest)
@@ -873,6 +903,12 @@ func gen(tier string, seed uint64) []runner.Scenario {
 		f := twinSpecs()[name]
 		name, f, idx := name, f, 5000+len(out)
 		id := "fixed/two-files-one-run-" + name
+		out = append(out, runner.Scenario{ID: id, Run: func() runner.Result { return checkSpec(id, f, idx, seed) }})
+	}
+	for _, name := range sortedKeys(sameRunSpecs()) {
+		f := sameRunSpecs()[name]
+		name, f, idx := name, f, 5000+len(out)
+		id := "fixed/sibling-files-one-run-" + name
 		out = append(out, runner.Scenario{ID: id, Run: func() runner.Result { return checkSpec(id, f, idx, seed) }})
 	}
 	for _, name := range sortedKeys(siblingSpecs()) {
